@@ -74,7 +74,7 @@ PROPS = {
         'v_units': ['evaluator'],
         'k_groups': [
             {'module': 'typer/evaluator.rs',
-             'harnesses': [('c13_op_' + o, 'complete') for o in C13_OPS if o not in ('divide', 'modulus')]
+             'harnesses': [('c13_op_' + o, 'complete') for o in C13_OPS if o not in ('multiply', 'divide', 'modulus')]
                           + [('c13_op_nonconstant_argument_propagates', 'complete'),
                              # divisor in {0, 1, -1 / all-ones}, any dividend: the cases the statement singles out
                              ('c13_op_divide_special_divisors', 'complete'), ('c13_op_modulus_special_divisors', 'complete')]
@@ -83,7 +83,9 @@ PROPS = {
             {'module': 'ir/ir_types.rs',
              'harnesses': [('c13_to_uint64_is_the_nonnegative_integer_value', 'complete')], 'tier': 'quick'},
             {'module': 'typer/evaluator.rs',
-             'harnesses': [('c13_op_multiply_intlit_bounded', 'bounded:untyped literal operands of magnitude < 2^20'),
+             # kissat needs 7 to 15+ minutes for the 32-bit multiplier equivalence: thorough tier only
+             'harnesses': [('c13_op_multiply', 'complete'),
+                           ('c13_op_multiply_intlit_bounded', 'bounded:untyped literal operands of magnitude < 2^20'),
                            ('c13_op_divide_small_bounded', 'bounded:integer operands of magnitude < 2^12'),
                            ('c13_op_modulus_small_bounded', 'bounded:integer operands of magnitude < 2^12'),
                            ],
